@@ -1,1 +1,329 @@
-/-! STUB — property C12 is not built yet. -/
+import Martian.Lemmas.Config
+import Martian.Generated.Config
+/-!
+C12 — A JSON modifier configuration means what its tree says, for every tree.
+Only property theorems and non-vacuity examples live here.
+Quantifiers: every configuration tree `Node` (any depth, any width, any scope list at every level,
+any priorities), every condition valuation of the message, both message kinds, every history of
+POSTed bodies. The JSON text level (`encoding/json`) and the five condition matchers are outside the
+model (see `Model/Config.lean`).
+-/
+namespace Martian.Props.C12
+open Martian Martian.Config
+
+/-! ## 1. Compiled evaluation = depth-first specification -/
+
+/-- **Main theorem.** If `parse.FromJSON` accepts the tree, then running the compiled modifier
+(through `martianhttp.Modifier`) on a request or a response runs exactly the leaves, in exactly the
+order, and reports exactly the errors, of the depth-first reading `specEval` of the tree. -/
+theorem compile_eval_eq_spec (n : Node) (r : Result) (k : Kind) (msg : Msg) (h : compile n = .ok r) :
+    flatO (run r k msg) = specEval k (msg k) n := by
+  rw [← compile_spec k (msg k) n r h]
+  exact outcomeOf_orNoop (msg k) k r
+
+/-- An error value produced by any compiled modifier is nil, a leaf error, or a non-empty
+`MultiError` of leaf errors (depth never exceeds one: by type; never empty: here). -/
+theorem multierror_never_empty (v : Nat → Bool) (m : Mod) : (eval v m).2 ≠ .multi [] := eval_wf v m
+
+/-! ## 2. Priority order -/
+
+/-- `priority.Group`'s insertion loop over the listed modifiers = stable descending sort of the
+reversed list. -/
+theorem priority_insert_sorted {α : Type} (ms : List (Int × α)) : insertAll ms = stableSortDesc ms.reverse :=
+  insertAll_eq_stableSort ms
+
+/-- … which is: the same elements, in non-increasing priority, and among the elements of any one
+priority the later-listed first. -/
+theorem priority_order_characterised {α : Type} (ms : List (Int × α)) :
+    (insertAll ms).Perm ms ∧ SortedDesc (insertAll ms) ∧
+    ∀ p : Int, (insertAll ms).filter (fun y => y.1 == p) = ms.reverse.filter (fun y => y.1 == p) :=
+  ⟨insertAll_perm ms, insertAll_sorted ms, fun p => filter_insertAll p ms⟩
+
+/-- … and nothing else is: the two ordering clauses determine the run order uniquely. -/
+theorem priority_order_unique {α : Type} (ms l : List (Int × α)) (hs : SortedDesc l)
+    (he : ∀ p : Int, l.filter (fun y => y.1 == p) = ms.reverse.filter (fun y => y.1 == p)) : l = insertAll ms :=
+  sorted_filter_unique l (insertAll ms) hs (insertAll_sorted ms) (fun p => by rw [he p, filter_insertAll])
+
+/-- One insertion: the new modifier goes after every strictly higher priority and in front of
+everything else (so in front of its equals). -/
+theorem priority_insert_position {α : Type} (x : Int × α) (l : List (Int × α)) (hs : SortedDesc l) :
+    ∃ pre suf, ins x l = pre ++ x :: suf ∧ l = pre ++ suf ∧ (∀ m ∈ pre, m.1 > x.1) ∧ (∀ m ∈ suf, x.1 ≥ m.1) := by
+  obtain ⟨pre, suf, h1, h2, h3⟩ := ins_split x l
+  refine ⟨pre, suf, h1, h2, h3, ?_⟩
+  have hsorted := ins_sorted x hs
+  rw [h1] at hsorted
+  have := (List.pairwise_append.mp hsorted).2.1
+  exact fun m hm => (List.pairwise_cons.mp this).1 m hm
+
+/-! ## 3. Scope projection -/
+
+def scopeOf : Node → Scope
+  | .leaf _ _ _ _ s => s
+  | .fifo s _ _ => s
+  | .prio s _ => s
+  | .filter _ s _ _ => s
+  | _ => none
+
+def capsOf : Node → Caps
+  | .leaf _ c _ _ _ => c
+  | _ => Caps.both
+
+/-- An accepted node exposes a request (response) modifier iff its scope names requests
+(responses); with no scope, iff its Go type supports them. `[]` exposes nothing, `nil` everything. -/
+theorem scope_projection (n : Node) (r : Result) (k : Kind) (h : compile n = .ok r) :
+    (r.side k).isSome = acts (scopeOf n) (capsOf n) k := by
+  cases n with
+  | leaf l caps fq fs scope =>
+    simp only [compile] at h
+    rw [newResult_side h k]; simp only [scopeOf, capsOf]; split <;> simp_all
+  | unknown => simp [compile] at h
+  | malformed => simp [compile] at h
+  | fifo scope agg cs =>
+    simp only [compile] at h
+    cases hc : compileList cs with
+    | error e => simp [hc] at h
+    | ok rs => simp only [hc] at h; rw [newResult_side h k]; simp only [scopeOf, capsOf]; split <;> simp_all
+  | prio scope cs =>
+    simp only [compile] at h
+    cases hc : compilePList cs with
+    | error e => simp [hc] at h
+    | ok rs => simp only [hc] at h; rw [newResult_side h k]; simp only [scopeOf, capsOf]; split <;> simp_all
+  | filter c scope t e =>
+    simp only [compile] at h
+    cases hc : compile t with
+    | error err => simp [hc] at h
+    | ok m =>
+      simp only [hc] at h
+      cases he : compileOpt e with
+      | error err => simp [he] at h
+      | ok em => simp only [he] at h; rw [newResult_side h k]; simp only [scopeOf, capsOf]; split <;> simp_all
+
+/-- A message kind that the root's scope does not name is left alone: no leaf runs, no error. -/
+theorem out_of_scope_untouched (n : Node) (r : Result) (k : Kind) (msg : Msg) (h : compile n = .ok r)
+    (hs : acts (scopeOf n) (capsOf n) k = false) : run r k msg = ([], .none) := by
+  have := scope_projection n r k h
+  rw [hs] at this
+  cases hk : r.side k with
+  | none => simp [run, hk, orNoop, eval]
+  | some m => simp [hk] at this
+
+/-- The same at every level of the specification (so, by the main theorem, of the compiled tree):
+whatever is below a node that does not act on `k` does not run for `k`. -/
+theorem spec_out_of_scope (n : Node) (k : Kind) (v : Nat → Bool) (hs : acts (scopeOf n) (capsOf n) k = false) :
+    specEval k v n = ([], []) := by
+  cases n <;> simp_all [specEval, scopeOf, capsOf]
+
+/-! ## 4. Error policy -/
+
+/-- fifo group without aggregation: the first child that fails ends the group; the children after
+it do not run, its error is returned as it is. -/
+theorem first_error_stops (v : Nat → Bool) (pre post : List Mod) (m : Mod)
+    (hpre : ∀ x ∈ pre, (eval v x).2 = .none) (hm : (eval v m).2 ≠ .none) :
+    eval v (.fifo false (pre ++ m :: post)) = (pre.flatMap (fun x => (eval v x).1) ++ (eval v m).1, (eval v m).2) := by
+  simp only [eval, evalList_eq, List.map_append, List.map_cons]
+  rw [fifoLoop_false_stop _ (eval v m).1 (eval v m).2 _ _ hm]
+  · simp [List.flatMap_map]
+  · intro o ho
+    obtain ⟨x, hx, rfl⟩ := List.mem_map.mp ho
+    exact hpre x hx
+
+/-- priority group: the same, over the run order. -/
+theorem first_error_stops_priority (v : Nat → Bool) (pre post : List (Int × Mod)) (m : Int × Mod)
+    (hpre : ∀ x ∈ pre, (eval v x.2).2 = .none) (hm : (eval v m.2).2 ≠ .none) :
+    eval v (.prio (pre ++ m :: post)) = (pre.flatMap (fun x => (eval v x.2).1) ++ (eval v m.2).1, (eval v m.2).2) := by
+  simp only [eval, evalPList_eq, List.map_append, List.map_cons]
+  rw [prioLoop_stop _ (eval v m.2).1 (eval v m.2).2 _ _ hm]
+  · simp [List.flatMap_map]
+  · intro o ho
+    obtain ⟨x, hx, rfl⟩ := List.mem_map.mp ho
+    exact hpre x hx
+
+/-- no failing child: everything runs, nil is returned (either policy). -/
+theorem no_error_runs_all (v : Nat → Bool) (agg : Bool) (ms : List Mod) (h : ∀ x ∈ ms, (eval v x).2 = .none) :
+    eval v (.fifo agg ms) = (ms.flatMap (fun x => (eval v x).1), .none) := by
+  simp only [eval, evalList_eq]
+  induction ms with
+  | nil => simp [fifoLoop]
+  | cons m ms ih =>
+    have hm := h m (by simp)
+    have := ih (fun x hx => h x (List.mem_cons_of_mem _ hx))
+    cases hme : eval v m with
+    | mk t e =>
+      simp only [hme] at hm
+      subst hm
+      simp only [List.map_cons, hme, fifoLoop, this, List.flatMap_cons]
+
+/-- fifo group with `aggregateErrors`: every child runs, and the errors reported are those of the
+children, each once, in order (nested `MultiError`s flattened). -/
+theorem aggregate_runs_all_reports_each_once (v : Nat → Bool) (ms : List Mod) :
+    flatO (eval v (.fifo true ms)) = (ms.flatMap (fun x => (eval v x).1), ms.flatMap (fun x => (eval v x).2.flat)) := by
+  simp only [eval, evalList_eq]
+  rw [fifoLoop_true, allErrors_eq]
+  simp [List.flatMap_map, flatO]
+
+/-! ## 5. Rejection as a whole -/
+
+/-- A body is accepted iff every node of it names a registered modifier, has the right JSON shape
+and a scope its modifier supports (`valid` recurses through the whole tree). -/
+theorem accept_iff_valid (n : Node) : (∃ r, compile n = .ok r) ↔ valid n = true := by
+  rw [← compile_okB n]
+  cases compile n <;> simp [okB]
+
+/-- Anything unknown, unsupported or malformed anywhere ⇒ the whole body is an error: no result. -/
+theorem reject_whole (n : Node) (h : valid n = false) : ∃ e, compile n = .error e := by
+  rw [← compile_okB n] at h
+  cases hc : compile n with
+  | error e => exact ⟨e, rfl⟩
+  | ok r => simp [hc, okB] at h
+
+/-- "anywhere", explicitly: a body is rejected iff some node of it — at any depth, under any scope,
+in any branch — is itself bad (`badHere`: unregistered name, wrong shape, unsupported scope). -/
+theorem reject_iff_bad_node_anywhere (n : Node) : (∃ e, compile n = .error e) ↔ anyNode badHere n = true := by
+  have h1 := compile_okB n
+  rw [valid_eq_not_any] at h1
+  cases hc : compile n with
+  | error e => simp [hc, okB] at h1; simp [h1]
+  | ok r => simp [hc, okB] at h1; simp [h1]
+
+/-- "anywhere", spelled out for groups and filters: one bad child/branch poisons the parent,
+whatever the parent's scope (even `[]`) and whatever the siblings. -/
+theorem bad_child_rejects_parent (scope : Scope) (agg : Bool) (pre post : List Node) (c : Node) (p : Int)
+    (cond : Nat) (t : Node) (e : Option Node) (h : valid c = false) :
+    valid (.fifo scope agg (pre ++ c :: post)) = false ∧
+    valid (.prio scope ((pre.map fun x => (p, x)) ++ (p, c) :: (post.map fun x => (p, x)))) = false ∧
+    valid (.filter cond scope c e) = false ∧ valid (.filter cond scope t (some c)) = false := by
+  have hl : ∀ pre : List Node, validList (pre ++ c :: post) = false := by
+    intro pre; induction pre with
+    | nil => simp [validList, h]
+    | cons a as ih => simp [validList, ih]
+  have hp : ∀ pre : List Node, validPList ((pre.map fun x => (p, x)) ++ (p, c) :: (post.map fun x => (p, x))) = false := by
+    intro pre; induction pre with
+    | nil => simp [validPList, h]
+    | cons a as ih => simp [validPList, ih]
+  simp [valid, validOpt, hl, hp, h]
+
+/-! ## 6. Reconfiguration is atomic -/
+
+/-- `servePOST`: a rejected body changes nothing; an accepted body installs exactly its own
+compilation, whatever was there before. -/
+theorem reconfig_atomic (s : Active) (body : Node) :
+    (servePOST s body).1 = (match compile body with | .ok r => r | .error _ => s) := by
+  unfold servePOST; cases compile body <;> rfl
+
+theorem rejected_leaves_previous (s : Active) (body : Node) (h : valid body = false) (k : Kind) (msg : Msg) :
+    run (servePOST s body).1 k msg = run s k msg := by
+  obtain ⟨e, he⟩ := reject_whole body h
+  simp [servePOST, he]
+
+theorem accepted_replaces_completely (s s' : Active) (body : Node) (h : valid body = true) :
+    (servePOST s body).1 = (servePOST s' body).1 := by
+  obtain ⟨r, hr⟩ := (accept_iff_valid body).mpr h
+  simp [servePOST, hr]
+
+/-- State after a history of POSTs. -/
+def afterPosts (s : Active) (bodies : List Node) : Active := bodies.foldl (fun s b => (servePOST s b).1) s
+
+/-- The last valid body of a history, if any. -/
+def lastValid (bodies : List Node) : Option Node := bodies.reverse.find? valid
+
+/-- After any history of POSTs the traffic is treated exactly as the depth-first reading of the last
+accepted body says — or, if none was accepted, as before the history. -/
+theorem traffic_follows_last_accepted (s : Active) (bodies : List Node) (k : Kind) (msg : Msg) :
+    flatO (run (afterPosts s bodies) k msg) =
+      (match lastValid bodies with
+       | some b => specEval k (msg k) b
+       | none => flatO (run s k msg)) := by
+  induction bodies using snocInd with
+  | h0 => simp [afterPosts, lastValid]
+  | h1 bs b ih =>
+    have hstep : afterPosts s (bs ++ [b]) = (servePOST (afterPosts s bs) b).1 := by simp [afterPosts, List.foldl_append]
+    rw [hstep]
+    cases hv : valid b with
+    | true =>
+      obtain ⟨r, hr⟩ := (accept_iff_valid b).mpr hv
+      have : lastValid (bs ++ [b]) = some b := by simp [lastValid, hv]
+      rw [this]
+      simp only [servePOST, hr]
+      exact compile_eval_eq_spec b r k msg hr
+    | false =>
+      have : lastValid (bs ++ [b]) = lastValid bs := by simp [lastValid, hv]
+      rw [this, rejected_leaves_previous _ b hv, ih]
+
+/-! ## 7. Regenerated facts (from `/repo`'s source on every run; `decide` on a finite table) -/
+
+/-- The event order of `martianhttp.Modifier.servePOST` that `Config.servePOST` transcribes. -/
+def expectedServePOST : List (String × String) :=
+  [("return", ""), ("call", "parse.FromJSON"), ("return", ""), ("call", "json.Indent"), ("return", ""),
+   ("call", "m.mu.Lock"), ("defer", "m.mu.Unlock"), ("write", "m.config"),
+   ("call", "m.setRequestModifier"), ("call", "m.setResponseModifier")]
+
+theorem facts_servePOST_order : Generated.Config.servePOST = expectedServePOST := by decide
+
+/-- an event that changes the handler's state -/
+def isStateWrite (e : String × String) : Bool :=
+  e.1 == "write" || e.2 == "m.setRequestModifier" || e.2 == "m.setResponseModifier" ||
+  e.2 == "m.SetRequestModifier" || e.2 == "m.SetResponseModifier"
+
+/-- What that order means: the body is parsed before the lock is taken and before any state is
+written; every early `return` precedes every write; both sides are installed under one lock. -/
+theorem facts_servePOST_parse_then_swap :
+    let ev := Generated.Config.servePOST
+    let firstWrite := ev.findIdx isStateWrite
+    ev.idxOf ("call", "parse.FromJSON") < ev.idxOf ("call", "m.mu.Lock") ∧ ev.idxOf ("call", "m.mu.Lock") < firstWrite ∧
+    (∀ i, i < ev.length → ev[i]? = some ("return", "") → i < firstWrite) ∧
+    ev.contains ("call", "m.setRequestModifier") ∧ ev.contains ("call", "m.setResponseModifier") ∧
+    ev.count ("call", "m.mu.Lock") = 1 := by
+  rw [facts_servePOST_order]; decide
+
+/-- Both insertion loops of `priority.Group` test `new.priority >= existing.priority` (the `ins` of the model). -/
+theorem facts_priority_insert_test : Generated.Config.prioInsertTest =
+    ["AddRequestModifier: preqmod.priority >= m.priority", "AddResponseModifier: presmod.priority >= m.priority"] := by decide
+
+/-! ## Non-vacuity (concrete witnesses; `decide` here is a test, not a proof of the property) -/
+
+def leafOK (l : Nat) : Node := .leaf l Caps.both false false none
+def leafFail (l : Nat) : Node := .leaf l Caps.both true true none
+
+/-- aggregate group [ leaf 1 (fails) ; request-scoped priority group (0↦2, 5↦3, 0↦4) ;
+filter on atom 7 (then: failing leaf 5, else: leaf 6) ; response-only leaf 7 ]. -/
+def exTree : Node :=
+  .fifo none true
+    [leafFail 1,
+     .prio (some [.request]) [(0, leafOK 2), (5, leafOK 3), (0, leafOK 4)],
+     .filter 7 none (leafFail 5) (some (leafOK 6)),
+     .leaf 7 ⟨false, true⟩ false false none]
+
+def atom7 : Msg := fun _ a => a == 7
+def noAtom : Msg := fun _ _ => false
+
+def runTree (n : Node) (k : Kind) (msg : Msg) : Option SOutcome :=
+  match compile n with
+  | .ok r => some (flatO (run r k msg))
+  | .error _ => none
+
+def errOf (n : Node) : Option PErr :=
+  match compile n with
+  | .ok _ => none
+  | .error e => some e
+
+example : valid exTree = true := by decide
+example : runTree exTree .req atom7 = some ([1, 3, 4, 2, 5], [1, 5]) := by decide
+example : runTree exTree .req noAtom = some ([1, 3, 4, 2, 6], [1]) := by decide
+example : runTree exTree .res atom7 = some ([1, 5, 7], [1, 5]) := by decide
+example : specEval .req (atom7 .req) exTree = ([1, 3, 4, 2, 5], [1, 5]) := by decide
+/-- without aggregation the first failing leaf stops everything -/
+example : runTree (.fifo none false [leafOK 0, leafFail 1, leafOK 2]) .req noAtom = some ([0, 1], [1]) := by decide
+/-- hypotheses of `reject_whole` are satisfiable: an unknown name four levels down, under a `[]` scope -/
+example : valid (.fifo none false [.filter 0 (some []) (leafOK 1) (some (.prio none [(1, .fifo none true [.unknown])]))]) = false := by decide
+/-- unsupported scope: a response scope on a request-only leaf -/
+example : errOf (.leaf 1 ⟨true, false⟩ false false (some [.response])) = some .invalidScope := by decide
+/-- the error reported is the first one met in parse order (child before the parent's own scope) -/
+example : errOf (.fifo (some [.other]) false [leafOK 1, .unknown, .malformed]) = some .unknownModifier := by decide
+/-- nil scope vs `[]` scope -/
+example : runTree (.fifo (some []) false [leafOK 1]) .req noAtom = some ([], []) := by decide
+example : runTree (.fifo none false [leafOK 1]) .req noAtom = some ([1], []) := by decide
+/-- reconfiguration: rejected body keeps the old tree, accepted body replaces it -/
+example : (lastValid [exTree, .unknown]).isSome = true ∧ (lastValid [.unknown]).isSome = false := by decide
+example : insertAll [((0 : Int), 1), (5, 2), (0, 3), (5, 4), (9, 5)] = [(9, 5), (5, 4), (5, 2), (0, 3), (0, 1)] := by decide
+
+end Martian.Props.C12
